@@ -6,7 +6,7 @@ Require Import WD.Proofs.C11KernelProofs WD.Proofs.C11ReaderProofs.
 
 Definition with_mask (C : cfg) (M : N) : cfg :=
   {| c_recursive := c_recursive C; c_mask := M; c_root := c_root C; c_fix_ignored := c_fix_ignored C;
-     c_fix_movein := c_fix_movein C; c_fix_simulate := c_fix_simulate C; c_fix_moveout := c_fix_moveout C;
+     c_fix_movein := c_fix_movein C; c_fix_simulate := c_fix_simulate C; c_fix_relabel := true; c_fix_moveout := c_fix_moveout C;
      c_faults := c_faults C |}.
 
 Section RT.
